@@ -65,6 +65,26 @@ Qed.
 Lemma ntake_short n b : lenN b < n -> ntake n b = None.
 Proof. intros H. rewrite ntake_spec. destruct (n <=? lenN b) eqn:E; [lia|reflexivity]. Qed.
 
+(* ---- capped counts --------------------------------------------------------------------------- *)
+Lemma len_upto_aux_spec {A} (b : list A) : forall k acc, len_upto_aux b k acc = acc + N.min k (lenN b).
+Proof.
+  induction b as [|x r IH]; intros k acc; cbn [len_upto_aux]; destruct (k =? 0) eqn:E.
+  - apply N.eqb_eq in E. subst. lia.
+  - change (lenN (@nil A)) with 0. lia.
+  - apply N.eqb_eq in E. subst. lia.
+  - apply N.eqb_neq in E. rewrite IH, lenN_cons. lia.
+Qed.
+Lemma len_upto_spec {A} k (b : list A) : len_upto k b = N.min k (lenN b).
+Proof. unfold len_upto. rewrite len_upto_aux_spec. lia. Qed.
+Lemma capped_eq count per b : 0 < per -> capped count per b = N.min count (lenN b / per).
+Proof.
+  intros Hp. unfold capped. rewrite len_upto_spec.
+  destruct (N.le_gt_cases ((count + 1) * per) (lenN b)) as [L|L].
+  - replace (N.min ((count + 1) * per) (lenN b)) with ((count + 1) * per) by lia. rewrite N.div_mul by lia.
+    assert (count + 1 <= lenN b / per) by (apply N.div_le_lower_bound; lia). lia.
+  - replace (N.min ((count + 1) * per) (lenN b)) with (lenN b) by lia. reflexivity.
+Qed.
+
 (* ---- run / cost algebra ------------------------------------------------------------------ *)
 Lemma run_bind {A B} (p : parser A) (f : A -> parser B) b :
   run (bind p f) b = match run p b with Ok (a, r) => run (f a) r | Err e => Err e end.
@@ -82,6 +102,8 @@ Proof. unfold run, map_err. destruct (p b) as [[x|e] c]; reflexivity. Qed.
 Lemma run_tick_alloc n b : run (tick_alloc n) b = Ok (tt, b).
 Proof. reflexivity. Qed.
 Lemma run_tick_alloc_capped a b c x : run (tick_alloc_capped a b c) x = Ok (tt, x).
+Proof. reflexivity. Qed.
+Lemma run_tick_hm_capped a b c x : run (tick_hm_capped a b c) x = Ok (tt, x).
 Proof. reflexivity. Qed.
 Lemma run_tick_depth n b : run (tick_depth n) b = Ok (tt, b).
 Proof. reflexivity. Qed.
@@ -144,6 +166,8 @@ Lemma psafe_tick_alloc n : psafe (tick_alloc n).
 Proof. apply psafe_noread; intros; reflexivity. Qed.
 Lemma psafe_tick_alloc_capped a b c : psafe (tick_alloc_capped a b c).
 Proof. apply psafe_noread; intros; reflexivity. Qed.
+Lemma psafe_tick_hm_capped a b c : psafe (tick_hm_capped a b c).
+Proof. apply psafe_noread; intros; reflexivity. Qed.
 Lemma psafe_tick_depth n : psafe (tick_depth n).
 Proof. apply psafe_noread; intros; reflexivity. Qed.
 
@@ -196,7 +220,7 @@ Proof.
 Qed.
 
 Ltac psafe_step :=
-  first [ apply psafe_ret | apply psafe_fail | apply psafe_tick_alloc | apply psafe_tick_alloc_capped
+  first [ apply psafe_ret | apply psafe_fail | apply psafe_tick_alloc | apply psafe_tick_alloc_capped | apply psafe_tick_hm_capped
         | apply psafe_tick_depth | apply psafe_read_raw | apply psafe_read_be
         | apply psafe_pmap | apply psafe_map_err | apply psafe_bind; [|intros ?]
         | apply psafe_if ].
@@ -445,7 +469,7 @@ Lemma run_read_string_list_enc l r :
   wf_string_list l -> run read_string_list (enc_string_list l ++ r) = Ok (l, r).
 Proof.
   intros (Hl & Hs). unfold read_string_list, enc_string_list, enc_list. rewrite <- app_assoc.
-  rewrite run_bind, run_read_short_enc by exact Hl. rewrite run_bind, run_tick_alloc.
+  rewrite run_bind, run_read_short_enc by exact Hl. rewrite run_bind, run_tick_alloc_capped.
   apply run_repeatS_enc. eapply Forall_impl; [|exact Hs]. intros s Hw r'. apply run_read_string_enc. exact Hw.
 Qed.
 
@@ -486,7 +510,7 @@ Lemma run_read_bytes_map_enc m r :
   run read_bytes_map (enc_bytes_map m ++ r) = Ok (m, r).
 Proof.
   intros Hl Hn Hw. unfold read_bytes_map, enc_bytes_map, enc_list. rewrite <- app_assoc.
-  rewrite run_bind, run_read_short_enc by exact Hl. rewrite run_bind, run_tick_alloc, run_bind.
+  rewrite run_bind, run_read_short_enc by exact Hl. rewrite run_bind, run_tick_hm_capped, run_bind.
   rewrite (run_repeatS_enc _ (fun kv => enc_string (fst kv) ++ enc_bytes (snd kv))).
   - rewrite run_ret, hm_of_list_nodup by exact Hn. reflexivity.
   - eapply Forall_impl; [|exact Hw]. intros [k v] [Hk Hv] r'. cbn [fst snd]. rewrite <- app_assoc.
@@ -499,7 +523,7 @@ Lemma run_read_string_multimap_enc m r :
   run read_string_multimap (enc_string_multimap m ++ r) = Ok (m, r).
 Proof.
   intros Hl Hn Hw. unfold read_string_multimap, enc_string_multimap, enc_list. rewrite <- app_assoc.
-  rewrite run_bind, run_read_short_enc by exact Hl. rewrite run_bind, run_tick_alloc, run_bind.
+  rewrite run_bind, run_read_short_enc by exact Hl. rewrite run_bind, run_tick_hm_capped, run_bind.
   rewrite (run_repeatS_enc _ (fun kv => enc_string (fst kv) ++ enc_string_list (snd kv))).
   - rewrite run_ret, hm_of_list_nodup by exact Hn. reflexivity.
   - eapply Forall_impl; [|exact Hw]. intros [k v] [Hk Hv] r'. cbn [fst snd]. rewrite <- app_assoc.
@@ -592,6 +616,7 @@ Lemma noof_read_be n : noof (read_be n).
 Proof. intros b. rewrite run_read_be. destruct (ntake n b) as [[? ?]|]; discriminate. Qed.
 Lemma noof_tick_alloc n : noof (tick_alloc n). Proof. intros b. discriminate. Qed.
 Lemma noof_tick_alloc_capped a b c : noof (tick_alloc_capped a b c). Proof. intros x. discriminate. Qed.
+Lemma noof_tick_hm_capped a b c : noof (tick_hm_capped a b c). Proof. intros x. discriminate. Qed.
 Lemma noof_tick_depth n : noof (tick_depth n). Proof. intros b. discriminate. Qed.
 Lemma noof_map_err {A} g (p : parser A) : (forall e, g e <> EOutOfFuel) -> noof (map_err g p).
 Proof. intros Hg b. rewrite run_map_err. destruct (run p b); [discriminate|]. intros X. inversion X. eapply Hg; eauto. Qed.
@@ -601,7 +626,7 @@ Lemma noof_repeatN {A} (p : parser A) n : noof p -> consuming p -> noof (repeatN
 Proof. intros H Hc b. apply repeatN_no_oof; assumption. Qed.
 
 Ltac noof_step :=
-  first [ apply noof_ret | apply noof_fail; discriminate | apply noof_tick_alloc | apply noof_tick_alloc_capped
+  first [ apply noof_ret | apply noof_fail; discriminate | apply noof_tick_alloc | apply noof_tick_alloc_capped | apply noof_tick_hm_capped
         | apply noof_tick_depth | apply noof_read_raw | apply noof_read_be | apply noof_pmap
         | apply noof_bind; [|intros ?] | apply noof_if | apply noof_repeatS ].
 Create HintDb noof.
